@@ -662,7 +662,11 @@ def view_case(draw, tier="quick"):
     if case["dur"] == "dt":
         case["inclusive"] = True  # two slots: the smallest record with something to interpolate
     nf = draw(st.integers(2, 12 if tier == "quick" else 30))
-    ops = [draw(_fwd_strategy()) for _ in range(nf)]
+    ops = []
+    if draw(st.integers(0, 2)) == 0:  # an earlier epoch wiped by clear: the views below must not see it
+        ops += draw(st.lists(_fwd_strategy(), min_size=1, max_size=6))
+        ops.append(["clear", draw(st.booleans()), -1])
+    ops += [draw(_fwd_strategy()) for _ in range(nf)]
     nv = draw(st.integers(1, 8 if tier == "quick" else 20))
     for _ in range(nv):
         ops.append(draw(_view_strategy()))
